@@ -381,6 +381,9 @@ where
     let mc = MinidumpContext { raw: wrap(c.clone()), valid: MinidumpContextValidity::All };
     assert!(mc.get_stack_pointer() == s[sp_slot]);
     assert!(mc.get_instruction_pointer() == s[ip_slot]);
+    // the type-erased dispatcher hands out this type's own register list
+    let g = mc.general_purpose_registers();
+    assert!(g.len() == C::REGISTERS.len() && g.as_ptr() == C::REGISTERS.as_ptr());
     std::mem::forget(mc);
 }
 
